@@ -12,7 +12,7 @@ use refimpl as r;
 use refimpl::{Mode, MODES};
 use serde_json::json;
 
-const RULE: &str = "for honest keys and signed (M, ctx, mode): (1) every other split i != |ctx|, i <= 255, of the concatenation ctx||M into (ctx', M') must be rejected in the same mode; (2) cross-mode mimicry: the pure signature of OID||PH(M) (also with domain and length bytes prepended) must be rejected by hash_verify(M, PH), and a pre-hash signature must be rejected by pure verify of OID||PH(M) and of the literal formatted bytes; (3) every other pre-hash function (incl. SHA-256 vs SHAKE128 which share the digest length) and the other mode must reject; the original must verify. The reference is run on every alternative as well (it must also say false). Non-trivial = distinct alternative interpretations evaluated against a signature that verifies under its own interpretation.";
+const RULE: &str = "for honest keys and signed (M, ctx, mode): (1) every other split i != |ctx|, i <= 255, of the concatenation ctx||M into (ctx', M') must be rejected in the same mode; (1b) every single-byte change of the context (all positions), the context truncated/extended by one byte, message bytes changed/extended/truncated must be rejected; (2) cross-mode mimicry: the pure signature of OID||PH(M) (also with domain and length bytes prepended) must be rejected by hash_verify(M, PH), and a pre-hash signature must be rejected by pure verify of OID||PH(M) and of the literal formatted bytes; (3) every other pre-hash function (incl. SHA-256 vs SHAKE128 which share the digest length) and the other mode must reject; the original must verify. The reference is run on every alternative as well (it must also say false). Non-trivial = distinct alternative interpretations evaluated against a signature that verifies under its own interpretation.";
 
 pub fn run(ctx: &Ctx) -> StageOut {
     let mut acc = Acc::new();
@@ -72,7 +72,9 @@ fn run_set<S: PS>(ctx: &Ctx) -> Acc {
         };
         for mode in MODES {
             // ---- (1) splits ---------------------------------------------------------------
-            let cl = *g.pick(&[0usize, 1, 2, 16, 100, 254, 255]);
+            // deterministic coverage of the context lengths (255 = the limit, 254, and short ones)
+            let cls = [255usize, 0, 1, 254, 2, 16, 100];
+            let cl = cls[(ji + mode as usize) % cls.len()];
             let ml = *g.pick(&[0usize, 1, 5, 40, 300]);
             let mut cx = gen::context(&mut g, cl);
             let mut m = gen::message(&mut g, ml);
@@ -102,6 +104,35 @@ fn run_set<S: PS>(ctx: &Ctx) -> Acc {
                     continue;
                 }
                 alt::<S>(&mut acc, &pk, &pk_b, "split", &cat[i..], &cat[..i], mode, &sig, i % 16 == 0);
+            }
+            // ---- (1b) near-miss contexts and messages: every byte position of the context ------
+            for pos in 0..cx.len() {
+                let mut c2 = cx.clone();
+                c2[pos] ^= if pos % 2 == 0 { 0x01 } else { 0x80 };
+                alt::<S>(&mut acc, &pk, &pk_b, "ctx-byte-changed", &m, &c2, mode, &sig, pos % 32 == 0 || pos + 1 == cx.len());
+            }
+            if !cx.is_empty() {
+                alt::<S>(&mut acc, &pk, &pk_b, "ctx-truncated", &m, &cx[..cx.len() - 1], mode, &sig, true);
+            }
+            if cx.len() < 255 {
+                let mut c2 = cx.clone();
+                c2.push(0);
+                alt::<S>(&mut acc, &pk, &pk_b, "ctx-extended", &m, &c2, mode, &sig, true);
+            }
+            for pos in [0usize, m.len() / 2, m.len().saturating_sub(1)] {
+                if pos < m.len() {
+                    let mut m2 = m.clone();
+                    m2[pos] ^= 0x01;
+                    alt::<S>(&mut acc, &pk, &pk_b, "msg-byte-changed", &m2, &cx, mode, &sig, false);
+                }
+            }
+            {
+                let mut m2 = m.clone();
+                m2.push(0);
+                alt::<S>(&mut acc, &pk, &pk_b, "msg-extended", &m2, &cx, mode, &sig, false);
+                if !m.is_empty() {
+                    alt::<S>(&mut acc, &pk, &pk_b, "msg-truncated", &m[..m.len() - 1], &cx, mode, &sig, false);
+                }
             }
             // ---- (3) other PH / other mode -----------------------------------------------
             for other in MODES {
